@@ -193,7 +193,8 @@ func (r *recallWantlist) refresh(now time.Time, interval time.Duration) int {
 		wantCid := want.Cid
 		sentAt, ok := r.sentAt[wantCid]
 		if ok && now.Sub(sentAt) >= interval {
-			r.sent.Remove(wantCid)
+			// Keep the want in the sent list: the peer still has it, and a
+			// cancel arriving before it is re-sent must not be dropped.
 			r.pending.Add(wantCid, want.Priority, want.WantType)
 			refreshed++
 		}
